@@ -130,6 +130,26 @@ def gen_fft(rng, max_n):
     return None
 
 
+def az_container(values, case):
+    """the azimuth list in the container / dtype users pass it in: float or integer ndarray (numpy's arange default), list,
+    tuple. Whole-number azimuths are handed over as integers in about half of the cases (chosen by the case content, so that a
+    case replays identically); the meaning of an azimuth does not depend on its container."""
+    vals = [float(v) for v in values]
+    whole = all(v == int(v) for v in vals)
+    k = int(sha8([vals, case.get("pct"), case.get("width"), len(case.get("records", []))]), 16) % 6
+    if whole and k == 0:
+        return np.array([int(v) for v in vals])             # integer ndarray, as np.arange(0, 180, 5)
+    if whole and k == 1:
+        return [int(v) for v in vals]                        # list of ints, as loaded from a settings file
+    if whole and k == 2:
+        return tuple(int(v) for v in vals)
+    if k == 3:
+        return list(vals)
+    if k == 4:
+        return tuple(vals)
+    return np.array(vals)
+
+
 def make_settings(case):
     """real settings object for a case dict (family, method, smoothing, width, fft, policy, az...)"""
     import hvsrpy
@@ -143,12 +163,12 @@ def make_settings(case):
         # both registered names of the method ("directional_energy" is an alias of "single_azimuth"), chosen by the case
         name = case.get("method") or ("directional_energy" if int(round(case["azimuth"] * 1000)) % 2 else "single_azimuth")
         return hvsrpy.HvsrTraditionalSingleAzimuthProcessingSettings(method_to_combine_horizontals=name,
-                                                                     azimuth_in_degrees=case["azimuth"], **kw)
+                                                                     azimuth_in_degrees=(int(case["azimuth"]) if case["azimuth"] == int(case["azimuth"]) and int(case["azimuth"]) % 2 else case["azimuth"]), **kw)
     if fam == "rot":
         return hvsrpy.HvsrTraditionalRotDppProcessingSettings(ppth_percentile_for_rotdpp_computation=case["pct"],
-                                                              azimuths_in_degrees=np.array(case["azimuths"]), **kw)
+                                                              azimuths_in_degrees=az_container(case["azimuths"], case), **kw)
     if fam == "az":
-        return hvsrpy.HvsrAzimuthalProcessingSettings(azimuths_in_degrees=list(case["azimuths"]), **kw)
+        return hvsrpy.HvsrAzimuthalProcessingSettings(azimuths_in_degrees=az_container(case["azimuths"], case), **kw)
     if fam == "diff":
         return hvsrpy.HvsrDiffuseFieldProcessingSettings(**kw)
     if fam == "psd":
